@@ -95,6 +95,8 @@ int main(int argc, char** argv) {
         if (gOpts.size() < 10) { fprintf(stderr, "c05: could not read the engine's option list\n"); return 2; }
         long n = a.cases;
         sess::GenCfg cfg;
+        cfg.maxThreads = (int)a.num("max-threads", 16);
+        cfg.maxHash = (int)a.num("max-hash", 256);
         vh::runProp("sessions", n * 7 / 10, 3.0, [&](Choices& c) {
             sess::Session s = sess::genSession(c, gOpts, cfg);
             runSession("sessions", s, st, 1);
